@@ -2081,6 +2081,13 @@ def c11(rep, tier, seed, wd, replay):
                 ops.append("probeprop %s %d" % (k.hex(), r.below(32)))
         ops += ["export", "exportb"]
         scen.append((["begin"], ops))
+    # keys whose only attestation so far is the GENESIS one (source 0, target 0 — the one case in which target is not above
+    # source), alone and beside a proposal / beside keys with ordinary histories
+    for q_ in range(4):
+        kg, ko = imp.KEYS[q_ % len(imp.KEYS)], imp.KEYS[(q_ + 1) % len(imp.KEYS)]
+        ops = ["probeatt %s 0 0" % kg.hex()] + (["probeprop %s 0" % kg.hex()] if q_ % 2 else []) + (["probeatt %s 0 1" % ko.hex(), "probeprop %s 4" % ko.hex()] if q_ >= 2 else [])
+        ops += ["export", "roundtrip", "probeatt %s 0 0" % kg.hex(), "probeatt %s 0 0" % ko.hex(), "probeatt %s 0 1" % kg.hex(), "probeprop %s 0" % kg.hex(), "export", "exportb"]
+        scen.insert(0, (["begin"], ops))
     res = run_imp_scenarios(rep, dh, wd, scen, label="roundtrip")
     for cfg, ops, impl, model in res:
         seen = False
